@@ -40,8 +40,16 @@ func loadcfgEngine(raw json.RawMessage) (interface{}, error) {
 	emptyHome(c.Dir)
 	stages := []map[string]interface{}{}
 	names := map[string]bool{}
-	for _, s := range c.Stages {
+	tasks := map[string]interface{}{"t": map[string]interface{}{"command": []string{"true"}}}
+	seen := map[string]bool{}
+	for k, s := range c.Stages {
 		st := map[string]interface{}{"name": s.Name, "task": "t"}
+		// every other stage gets its name by DEFAULT (it is named after its task), unless the name is declared twice
+		if (k+c.ID)%2 == 0 && !seen[s.Name] {
+			tasks[s.Name] = map[string]interface{}{"command": []string{"true"}}
+			st = map[string]interface{}{"task": s.Name}
+		}
+		seen[s.Name] = true
 		if len(s.Deps) > 0 {
 			st["depends_on"] = s.Deps
 		}
@@ -52,7 +60,7 @@ func loadcfgEngine(raw json.RawMessage) (interface{}, error) {
 		}
 	}
 	doc := map[string]interface{}{
-		"tasks":     map[string]interface{}{"t": map[string]interface{}{"command": []string{"true"}}},
+		"tasks":     tasks,
 		"pipelines": map[string]interface{}{"p": stages},
 	}
 	b, _ := json.Marshal(doc)
